@@ -55,7 +55,7 @@ ATOMS = [
     A("bfC", "int {p}bs:7; int :0; int {p}bu:9;", [("{p}bs", "bits_s"), ("{p}bu", "bits_s")]),
     A("zla", "int {p}z[0];", []),
     A("flex", "int {p}fl[];", [], last_only=True),
-    A("kw", "int type; char fn;", [("type", "sint"), ("fn", "sint")]),
+    A("kw", "int {k0}; char {k1};", [("{k0}", "sint"), ("{k1}", "sint")]),
 ]
 ATOM = {a.key: a for a in ATOMS}
 
@@ -78,6 +78,14 @@ RECORD_ATTRS = [
 MEMBER_ATTRS = [("", ""), ("mal8", "__attribute__((aligned(8)))"), ("mal16", "__attribute__((aligned(16)))"), ("mpk", "__attribute__((packed))")]
 
 
+KW_BY_POS = [("type", "fn"), ("match", "impl"), ("mod", "use"), ("loop", "dyn")]  # Rust keywords that are plain C identifiers
+
+
+def fmt(text, pos, t=""):
+    k0, k1 = KW_BY_POS[pos % len(KW_BY_POS)]
+    return text.format(p=f"m{pos}_", t=t, k0=k0, k1=k1)
+
+
 class RecordCase:
     def __init__(self, tag, kind, atoms, rattr="plain", mattr=""):
         self.tag = tag
@@ -96,7 +104,7 @@ class RecordCase:
         for pos, k in enumerate(self.atoms):
             a = ATOM[k]
             for nm, kind in a.fields:
-                out.append((nm.format(p=f"m{pos}_"), kind))
+                out.append((fmt(nm, pos), kind))
         return out
 
     def source(self):
@@ -110,7 +118,7 @@ class RecordCase:
         body = []
         mtext = dict(MEMBER_ATTRS)[self.mattr] if self.mattr else ""
         for pos, k in enumerate(self.atoms):
-            d = ATOM[k].decl.format(p=f"m{pos}_", t=t)
+            d = fmt(ATOM[k].decl, pos, t)
             if mtext and pos == len(self.atoms) - 1 and d.count(";") == 1 and ":" not in d:
                 d = d[:-1] + " " + mtext + ";"
             body.append(d)
